@@ -114,3 +114,111 @@ def is_self_contained(netlist):
     own = owned_ids(netlist)
     objs, _ = scan([netlist])
     return all(id(o) in own for o in objs)
+
+
+# ------------------------------------------------------------------------------------------
+# name-level form (EDIF round trip, comparer, readers)
+# ------------------------------------------------------------------------------------------
+def _pin_ep(pin, d):
+    if kind_of(pin) == "ipin":
+        port = pin.port
+        if port is None:
+            return ("port", None, None)
+        return ("port", port.name, list(port.pins).index(pin))
+    inst, ip = pin.instance, pin.inner_pin
+    if inst is None or ip is None or ip.port is None:
+        return ("inst", None, None, None)
+    return ("inst", inst.name, ip.port.name, list(ip.port.pins).index(ip))
+
+
+def named_definition(d, with_ids=True, props_key="EDIF.properties", port_lsb=False, cable_order=False):
+    ports = []
+    for p in d.ports:
+        rec = [p.name, p.direction.name, len(p.pins), bool(p.is_array)]
+        if port_lsb:
+            rec.append(p.lower_index)
+        if with_ids:
+            rec.append(p.get("EDIF.identifier"))
+        ports.append(tuple(rec))
+    cables = {}
+    order = []
+    for c in d.cables:
+        bits = tuple(tuple(_pin_ep(x, d) for x in w.pins) for w in c.wires)
+        rec = (len(c.wires), bool(c.is_array), c.lower_index if c.is_array else 0, bits,
+               c.get("EDIF.identifier") if with_ids else None)
+        if c.name in cables:
+            cables[(c.name, len(order))] = rec
+        else:
+            cables[c.name] = rec
+        order.append(c.name)
+    insts = {}
+    for i in d.children:
+        r = i.reference
+        ref = None if r is None else ((r.library.name if r.library is not None else None), r.name)
+        pr = i.get(props_key)
+        rec = (ref, _freeze(pr), i.get("EDIF.identifier") if with_ids else None)
+        if i.name in insts:
+            insts[(i.name, len(insts))] = rec
+        else:
+            insts[i.name] = rec
+    out = {"ports": tuple(ports), "cables": cables, "instances": insts,
+           "id": d.get("EDIF.identifier") if with_ids else None}
+    if cable_order:
+        out["cable_order"] = tuple(order)
+    return out
+
+
+def _freeze(v):
+    if isinstance(v, dict):
+        return tuple(sorted((k, _freeze(x)) for k, x in v.items()))
+    if isinstance(v, (list, tuple)):
+        return tuple(_freeze(x) for x in v)
+    if isinstance(v, bool):
+        return ("bool", v)
+    if isinstance(v, int):
+        return ("int", v)
+    if isinstance(v, float):
+        return ("float", v)
+    return v
+
+
+def named(netlist, **kw):
+    libs = {}
+    for lib in netlist.libraries:
+        defs = {}
+        for d in lib.definitions:
+            defs[d.name] = named_definition(d, **kw)
+        libs[lib.name] = {"defs": defs, "id": lib.get("EDIF.identifier") if kw.get("with_ids", True) else None}
+    top = netlist.top_instance
+    t = None
+    if top is not None:
+        r = top.reference
+        t = (top.name, None if r is None else ((r.library.name if r.library is not None else None), r.name))
+    return {"name": netlist.name, "libs": libs, "top": t}
+
+
+def dict_diff(a, b, path=""):
+    """First difference between two nested dict/tuple forms, as text."""
+    if isinstance(a, dict) and isinstance(b, dict):
+        for k in a:
+            if k not in b:
+                return "%s/%r: missing after" % (path, k)
+        for k in b:
+            if k not in a:
+                return "%s/%r: only after" % (path, k)
+        for k in a:
+            d = dict_diff(a[k], b[k], "%s/%s" % (path, k))
+            if d:
+                return d
+        return None
+    if isinstance(a, tuple) and isinstance(b, tuple):
+        if len(a) != len(b):
+            return "%s: length %d vs %d" % (path, len(a), len(b))
+        for i, (x, y) in enumerate(zip(a, b)):
+            d = dict_diff(x, y, "%s[%d]" % (path, i))
+            if d:
+                return d
+        return None
+    if a != b or type(a) != type(b):
+        return "%s: %r vs %r" % (path, a, b)
+    return None
